@@ -142,6 +142,9 @@ thread_local! {
 
 fn client(id: usize, seed: u64, ops: usize, start: &std::sync::Barrier) {
     let t = table();
+    // a wall clock for this thread (Miri's isolation offers none): a change that asks
+    // `Epoch::now()` can then be interpreted at all
+    hifitime::verif_seam::set_now(Some(Some(std::time::Duration::from_secs(1_790_380_800 + id as u64))));
     AT_EXIT.with(|p| *p.borrow_mut() = Some(ExitProbe { id, t: t.clone() }));
     let mut r = Lcg(seed ^ (id as u64 + 1).wrapping_mul(0x9E37_79B9_7F4A_7C15));
     // each client loads a different bulletin (a different prefix of the real list)
